@@ -105,6 +105,20 @@ Proof. intros s. split; [apply gc_levels_run | apply gc_levels_sched_only]. Qed.
 Theorem collect_inv : forall s, CInv s -> CInv (collect s).
 Proof. intros s H. apply (run_inv k terms nl _ s _ H (proj1 (collect_is_run s))). Qed.
 
+Theorem collect_wf : forall s, CInv s -> terms_unique_b terms = true ->
+  CInv (collect s) /\ WF (to_snap (collect s)) /\ rc_exact_b (to_snap (collect s)) [] = true.
+Proof.
+  intros s H Ht. pose proof (collect_inv s H) as H'. split; [exact H'|]. apply conc_wf; assumption.
+Qed.
+
+(** counts are exact after any schedule of any threads from the empty manager *)
+Theorem run_counts_exact : forall sched s, terms_unique_b terms = true ->
+  run cempty sched = Some s ->
+  WF (to_snap s) /\ rc_exact_b (to_snap s) [] = true.
+Proof.
+  intros sched s Ht Hr. apply conc_wf; [|exact Ht]. apply (reachable_inv k terms nl sched s Hr).
+Qed.
+
 (** ** facts about schedules of collector actions *)
 
 Lemma gc_step_shape : forall s id s' r, CInv s -> step s (AGcNode id) = Some (s', r) ->
@@ -354,6 +368,64 @@ Proof.
     destruct (run_frame_idle k terms nl _ s _ tid e H Hrun (gc_only_idle _ tid Hgc) Ho) as [_ Hk].
     destruct (Hk (RN id) Hr) as [_ Hkeep]. destruct (Hkeep id nd eq_refl F) as [nd' [F' _]]. eauto.
   - intros nd' F'. apply (Hsub id nd' F').
+Qed.
+
+(** the executable reachability test decides [reach_own] *)
+
+Lemma creach_from_term : forall t x r, creach t (RT x) r -> r = RT x.
+Proof. intros t x r Hr. induction Hr as [|i nd e Hr IH F He]; [reflexivity | discriminate]. Qed.
+
+Lemma creach_cons_left : forall t j nd e r, cfind t j = Some nd -> In e (cch nd) ->
+  creach t (eref e) r -> creach t (RN j) r.
+Proof.
+  intros t j nd e r F He Hr. induction Hr as [|i ndi x Hr IH Fi Hx].
+  - apply (creach_child t _ j nd e (creach_refl t _) F He).
+  - apply (creach_child t _ i ndi x IH Fi Hx).
+Qed.
+
+Lemma creach_left : forall t j r, creach t (RN j) r ->
+  r = RN j \/ exists nd e, cfind t j = Some nd /\ In e (cch nd) /\ creach t (eref e) r.
+Proof.
+  intros t j r Hr. induction Hr as [|i ndi x Hr IH Fi Hx]; [left; reflexivity|]. right.
+  destruct IH as [E|[nd [e [F [He Hre]]]]].
+  - inversion E; subst i. exists ndi, x. split; [exact Fi|]. split; [exact Hx | constructor].
+  - exists nd, e. split; [exact F|]. split; [exact He|]. apply (creach_child t _ i ndi x Hre Fi Hx).
+Qed.
+
+Lemma reach_from_b_sound : forall t f r id, reach_from_b t f r id = true -> creach t r (RN id).
+Proof.
+  induction f as [|f IH]; intros r id Hb; destruct r as [x|j]; simpl in Hb; try discriminate;
+    apply orb_true_iff in Hb; destruct Hb as [Hb|Hb]; try discriminate;
+    try (apply Pos.eqb_eq in Hb; subst; constructor).
+  destruct (cfind t j) as [nd|] eqn:F; [|discriminate].
+  apply existsb_exists in Hb. destruct Hb as [e [He Hb]].
+  apply (creach_cons_left t j nd e _ F He (IH _ _ Hb)).
+Qed.
+
+Lemma reach_from_b_complete : forall s id, CInv s -> forall f j,
+  creach (cn s) (RN j) (RN id) ->
+  (forall nd, cfind (cn s) j = Some nd -> nl - cl nd <= S f) ->
+  reach_from_b (cn s) f (RN j) id = true.
+Proof.
+  intros s id H. induction f as [|f IH]; intros j Hr Hlv; simpl; apply orb_true_iff;
+    (destruct (Pos.eqb_spec j id) as [E|Hne]; [left; reflexivity | right]);
+    (destruct (creach_left _ _ _ Hr) as [E|[nd [e [F [He Hre]]]]]; [inversion E; congruence|]);
+    (destruct (eref e) as [x|c] eqn:Er;
+      [apply creach_from_term in Hre; discriminate|]);
+    destruct (child_live k terms nl s j nd e c H F He Er) as [ndc [Fc [_ Hlt]]];
+    pose proof (stored_level_lt s c ndc H Fc) as Hc; pose proof (Hlv nd F) as Hl.
+  - lia.
+  - rewrite F. apply existsb_exists. exists e. split; [exact He|]. rewrite Er. apply IH; [exact Hre|].
+    intros nd' F'. rewrite Fc in F'. inversion F'; subst. lia.
+Qed.
+
+Theorem reach_own_b_spec : forall s id, CInv s -> (reach_own_b nl s id = true <-> reach_own s id).
+Proof.
+  intros s id H. unfold reach_own_b, reach_own. rewrite existsb_exists. split.
+  - intros [o [Ho Hb]]. exists o. split; [exact Ho | apply (reach_from_b_sound _ _ _ _ Hb)].
+  - intros [o [Ho Hr]]. exists o. split; [exact Ho|].
+    destruct (eref (snd o)) as [x|j] eqn:Er; [apply creach_from_term in Hr; discriminate|].
+    apply (reach_from_b_complete s id H nl j Hr). intros nd F. lia.
 Qed.
 
 (** ** (c) tokens and their denotations are unchanged *)
